@@ -100,6 +100,22 @@ def gen_cases(chk):
         q = rng.choice((0, 0, 2, 32, 256, 65536, 4))
         cfg = "szMode=SZ_BEST_SPEED;withLinearRegression=NO" + (";quantization_intervals=%d" % q if q else "") + rng.choice(("", ";sampleDistance=3", ";predThreshold=0.5"))
         k1.append("rtr 0 %s %s %x %s %s 0 %s x:%s" % (tup5((r1, r2)), tup5((r1, r2)), mode, dbits(absb), dbits(rel), cfg, ",".join("%x" % f32b(x) for x in v)))
+    # (A3) 3-D float arrays through the SZ-1.4 3-D kernel, explicit values, compared bit for bit with the model
+    for _ in range(150 if thorough else 40):
+        r1, r2, r3 = rng.choice(((3, 4, 5), (2, 3, 7), (4, 4, 4), (2, 2, 11), (5, 3, 2), (3, 7, 3)))
+        n = r1 * r2 * r3
+        a_, b_, d_, c_ = rng.uniform(-3, 3), rng.uniform(-3, 3), rng.uniform(-3, 3), rng.choice((1.0, 100.0, 1e-3))
+        v = [struct.unpack("<f", struct.pack("<f", c_ * (a_ * (k // (r2 * r3)) + b_ * ((k // r3) % r2) + d_ * (k % r3) + 0.02 * rng.uniform(-1, 1)
+                                                      + 0.3 * math.sin(0.7 * (k % r3) + 0.4 * (k // r3)))))[0] for k in range(n)]
+        if rng.random() < 0.3:
+            v = gen_array(n, rng, 0)
+        rngv = max(v) - min(v)
+        mag = max(abs(min(v)), abs(max(v)), 1e-300)
+        absb = rngv * rng.choice((1e-1, 1e-2, 1e-3, 1e-5, 1e-7)) if rngv > 0 else mag * 1e-3
+        q = rng.choice((0, 0, 2, 32, 256, 65536, 4))
+        cfg = "szMode=SZ_BEST_SPEED;withLinearRegression=NO" + (";quantization_intervals=%d" % q if q else "")
+        k1.append("rtr 0 %s %s %x %s %s 0 %s x:%s" % (tup5((r1, r2, r3)), tup5((r1, r2, r3)), rng.choice((0, 0, 1, 3)), dbits(absb), dbits(rng.choice((1e-1, 1e-2, 1e-4))), cfg,
+                                                      ",".join("%x" % f32b(x) for x in v)))
     # (B) every rank / kernel / configuration: bound oracle on the implementation
     shapes = [(64,), (1000,), (30, 40), (17, 33), (100, 100), (8, 9, 10), (16, 17, 18), (6, 6, 6), (3, 4, 5, 6), (6, 7, 6, 7), (2, 3, 30, 5)]
     if thorough:
@@ -196,14 +212,17 @@ def run(chk):
         if not info or info["const"] or info["lossless"] or info["regression"]:
             continue
         cd = [int(x, 16) for x in a[3].split(",")]
-        if sum(1 for x in cd if x > 1) == 2:
+        if sum(1 for x in cd if x > 1) == 3:
+            mcases.append("fk3 %x %x %x %x %s" % (info["prec"], info["intervals"], cd[3], cd[4], a[9][2:]))
+        elif sum(1 for x in cd if x > 1) == 2:
             mcases.append("fk2 %x %x %x %s" % (info["prec"], info["intervals"], cd[4], a[9][2:]))
         else:
             mcases.append("%s %x %x %s" % ("fk1" if ty == 0 else "dk1", info["prec"], info["intervals"], a[9][2:]))
         midx.append((i, info))
     mo = lib.run_cases(model, mcases, timeout=3000)
     chk.cov["model_runs_2d_float"] = sum(1 for m in mcases if m.startswith("fk2"))
-    chk.cov["model_runs_1d"] = sum(1 for m in mcases if not m.startswith("fk2"))
+    chk.cov["model_runs_3d_float"] = sum(1 for m in mcases if m.startswith("fk3"))
+    chk.cov["model_runs_1d"] = sum(1 for m in mcases if not m.startswith(("fk2", "fk3")))
     mres = {i: (kv(m), info) for (i, info), m in zip(midx, mo)}
     nfail = nbad = ncmp = 0
 
